@@ -100,7 +100,11 @@ def instantiate(pid, gen, pkgs):
                 if fn.endswith(".go"):
                     txt = data.decode()
                     if gen == "v1":
+                        if txt.startswith("//verif:v2only"):
+                            continue  # file relies on v2-only API; not instantiated for the root module
                         txt = rewrite_v1(txt)
+                    elif txt.startswith("//verif:v1only"):
+                        continue
                     txt = txt.replace("verif/HARNESS/", "verif/h%s/" % ("2" if gen == "v2" else "1"))
                     data = txt.encode()
                 out = os.path.normpath(os.path.join(dst, rel, fn))
@@ -119,7 +123,9 @@ def instantiate(pid, gen, pkgs):
 
 def rewrite_v1(txt):
     # root-module instantiation of a template written against v2
+    txt = txt.replace('\t"' + V2 + '/restlidata/generated/com/linkedin/restli/common"', '\tcommon "' + V1 + '/restlidata"')
     txt = txt.replace(V2 + "/restlidata/generated/com/linkedin/restli/common", V1 + "/restlidata")
+    txt = txt.replace('\t"' + V2 + '/restli/patch"', '\tpatch "' + V1 + '/restli"')
     txt = txt.replace(V2 + "/restli/patch", V1 + "/restli")
     txt = txt.replace(V2 + "/", V1 + "/")
     txt = txt.replace('"' + V2 + '"', '"' + V1 + '"')
@@ -266,7 +272,8 @@ def run_property(pid, tier, seed, replay, keep, only):
     for ji, job in enumerate(P["jobs"]):
         if job not in jobs:
             continue
-        wd = instantiate(pid, job["gen"], [job["pkg"]] + list(job.get("extra_pkgs", [])))
+        extra = [("gendrv1" if (x == "gendrv" and job["gen"] == "v1") else x) for x in job.get("extra_pkgs", [])]
+        wd = instantiate(pid, job["gen"], [job["pkg"]] + extra)
         penv = {}
         if job["prepare"]:
             penv = getattr(prep, job["prepare"])(pid=pid, job=job, wd=wd, tier=tier, seed=seed, log=log, replay=replay) or {}
